@@ -581,7 +581,72 @@ def check_consume(prog, ctx):
     ctx.minimum(rid, 4, "phase_sync shape")
 
 
+def check_rebuild(prog, ctx):
+    """R09.4: whenever a sign table is rebuilt from scratch, every sector's pending sign is carried over:
+    no path through the rebuilding loop skips reading the old sign of that sector."""
+    from rules.c04_order import leaf_paths
+
+    rid = "R09.4"
+    fcls = prog.cls(CTX)
+    n = 0
+    for f in sorted(fcls.methods.values(), key=lambda f: f.qualname):
+        installs = []
+        for c in ast.walk(f.node):
+            if isinstance(c, ast.Call) and isinstance(c.func, ast.Attribute) and c.func.attr in ("modify", "copy_with"):
+                for k in c.keywords:
+                    if k.arg == "phases" and isinstance(k.value, ast.Name):
+                        installs.append(k.value.id)
+        for a in ast.walk(f.node):
+            if isinstance(a, ast.Assign) and isinstance(a.targets[0], ast.Attribute) and a.targets[0].attr == "_phases" \
+                    and isinstance(a.value, ast.Name):
+                installs.append(a.value.id)
+        for var in sorted(set(installs)):
+            if var in f.all_params():
+                continue
+            defs = [a for a in ast.walk(f.node) if isinstance(a, ast.Assign) and len(a.targets) == 1 and src(a.targets[0]) == var]
+            for d in defs:
+                v = d.value
+                n += 1
+                if isinstance(v, ast.Call) and (src(v.func).endswith("phases.copy") or src(v.func) == "dict"):
+                    ctx.ok(rid, f"{f.file}:{f.qualname}", f"`{var}` starts as a copy of the old sign table (every pending sign carried)")
+                    continue
+                if isinstance(v, ast.DictComp):
+                    it = src(v.generators[0].iter)
+                    ok = it.endswith("phases.items()") or it.endswith("_phases.items()") and not v.generators[0].ifs
+                    ctx.check(ok and not v.generators[0].ifs, rid, f, d, src(d)[:100],
+                              f"`{var}` is rebuilt from every entry of the old sign table (no filter)")
+                    continue
+                if isinstance(v, ast.Dict) and not v.keys:
+                    # filled in a loop: every non-raising path of the loop body must read the old sign of its sector
+                    loops = [lp for lp in ast.walk(f.node) if isinstance(lp, ast.For) and any(
+                        isinstance(s_, ast.Assign) and isinstance(s_.targets[0], ast.Subscript) and src(s_.targets[0].value) == var
+                        for b in lp.body for s_ in ast.walk(b))]
+                    ctx.check(len(loops) == 1, rid, f, d, src(d), f"`{var}` is filled by exactly one loop over the sectors")
+                    if len(loops) != 1:
+                        continue
+                    lp = loops[0]
+                    key = src(lp.target.elts[0]) if isinstance(lp.target, ast.Tuple) else src(lp.target)
+                    it = src(lp.iter)
+                    ctx.check(it.endswith(".sectors") or it.endswith("blocks.items()") or it.endswith("blocks"), rid, f, lp, it,
+                              "the rebuilding loop ranges over all stored sectors")
+                    for (conds, stmts) in leaf_paths(lp.body):
+                        if stmts and isinstance(stmts[-1], ast.Raise):
+                            continue
+                        reads = any(isinstance(c, ast.Call) and isinstance(c.func, ast.Attribute) and c.func.attr in ("get", "pop")
+                                    and "phases" in src(c.func.value) and c.args and src(c.args[0]) == key
+                                    for s_ in stmts for c in ast.walk(s_))
+                        # conditions evaluated on the way also count (e.g. `if new._phases.pop(sector, 1) == -1:`)
+                        reads = reads or any(f"phases.pop({key}" in c or f"phases.get({key}" in c for c, _ in conds)
+                        desc = " and ".join(("" if v_ else "not ") + c for c, v_ in conds) or "straight"
+                        ctx.check(reads, rid, f, lp, f"path [{desc}]"[:120],
+                                  f"path [{desc[:80]}] of the loop rebuilding `{var}` reads the old pending sign of `{key}` "
+                                  "(a path that skips it silently drops that sign)")
+    ctx.minimum(rid, 5, "transpose (2 forms), phase_flip, dagger, _map_blocks")
+
+
 def run(prog, ctx):
+    ctx.rule("R09.4", "a sign table that is rebuilt carries every pending sign: copy, unfiltered comprehension over the old table, or a "
+             "loop in which every path reads the old sign of its sector")
     ctx.rule("R09.1", "on every path from a public entry point, block values of a possibly-lazy fermionic array are only "
              "used by sign-equivariant or sign-even constructs, or after phase_sync on that array")
     ctx.rule("R09.2", "every re-keying of the block table reachable with pending signs re-keys the sign table with the same map")
@@ -614,3 +679,4 @@ def run(prog, ctx):
     ctx.minimum("R09.1", 80, "entry points + equivariant sites")
     check_mirrors(prog, ctx)
     check_consume(prog, ctx)
+    check_rebuild(prog, ctx)
